@@ -657,6 +657,11 @@ func runCheck(prop, tier string, budgetMs, nWorkers int) int {
 	}
 	budget := tierBudget(prop, tier, budgetMs)
 	base := baseSeed()
+	var knownSigs []string
+	for _, f := range loadKnown().Findings {
+		knownSigs = append(knownSigs, f.Property+"|"+f.Sig)
+	}
+	os.Setenv("SIM_KNOWN_SIGS", strings.Join(knownSigs, ","))
 	tmp, err := os.MkdirTemp(scratchDir, "run-"+prop+"-")
 	if err != nil {
 		die(2, "%v", err)
